@@ -102,6 +102,19 @@ def classify_request_diff(b, method, path, sent, got, locs):
     return "request/%s/%s" % (loc, type(sent).__name__)
 
 
+def chosen_response(method, result):
+    """the success response the design selects for this result: the first whose tag matches, else the untagged one"""
+    resps = (method.get("http") or {}).get("responses") or []
+    for r0 in resps:
+        t = r0.get("tag")
+        if t and isinstance(result, dict) and result.get(t[0]) == t[1]:
+            return r0
+    for r0 in resps:
+        if not r0.get("tag"):
+            return r0
+    return None
+
+
 def judge_call(b, svc, method, cmd, obs):
     """Returns a list of (signature, what) for one observed call with a valid payload and result."""
     out = []
@@ -137,17 +150,22 @@ def judge_call(b, svc, method, cmd, obs):
     if method.get("result") is not None and not (cmd["script"].get("error")):
         want = canon(cmd["script"].get("result"))
         rlocs = {}
-        for r0 in ((method.get("http") or {}).get("responses") or [])[:1]:
+        chosen = chosen_response(method, cmd["script"].get("result"))
+        for r0 in [chosen] if chosen else []:
             for mp in r0.get("headers") or []:
                 rlocs[mp["attr"]] = "header"
             for mp in r0.get("cookies") or []:
                 rlocs[mp["attr"]] = "cookie"
         if obs.get("client_error"):
             msg = obs["client_error"].get("message", "")
-            mm = re.search(r'"(\w+)" is missing from header', msg)
-            if mm and isinstance(want, dict) and (cmd["script"]["result"] or {}).get(mm.group(1)) == "":
-                out.append(("response/header/required-empty-string-reported-missing",
-                            "%s: required result attribute %s carried in a header with value \"\" is reported missing by the client" % (name, mm.group(1))))
+            mm = re.search(r'"(\w+)" is missing from (header|cookie)', msg)
+            sent_v = (cmd["script"]["result"] or {}).get(mm.group(1)) if mm and isinstance(want, dict) else None
+            if mm and sent_v == "":
+                out.append(("response/%s/required-empty-string-reported-missing" % mm.group(2),
+                            "%s: required result attribute %s carried in a %s with value \"\" is reported missing by the client" % (name, mm.group(1), mm.group(2))))
+            elif mm and mm.group(2) == "cookie" and isinstance(sent_v, str) and not COOKIE_OCTET.match(sent_v):
+                out.append(("response/cookie/value-outside-cookie-octets",
+                            "%s: result attribute %s = %r carried in a response cookie is dropped or altered by net/http's cookie sanitiser" % (name, mm.group(1), sent_v)))
             else:
                 out.append(("response/client-error", "%s: the client returned an error for a valid result: %s" % (name, msg[:200])))
         else:
@@ -162,14 +180,17 @@ def judge_call(b, svc, method, cmd, obs):
                     out.append(("response/defaulted-zero-arrives-as-default", "%s: result attribute %s returned as %r seen by the client as %r" % (name, show(path), s, g)))
                     continue
                 top = path.strip(SEP).split(SEP)[0]
+                if rlocs.get(top) == "cookie" and isinstance(s, str) and not COOKIE_OCTET.match(s):
+                    out.append(("response/cookie/value-outside-cookie-octets",
+                                "%s: result attribute %s = %r carried in a response cookie is dropped or altered by net/http's cookie sanitiser" % (name, show(path), s)))
+                    continue
                 if rlocs.get(top) and s == "" and g is None:
                     out.append(("response/%s/empty-string-is-absent" % rlocs[top], "%s: result attribute %s returned as \"\" is absent for the client" % (name, show(path))))
                     continue
                 out.append(("response/%s/%s" % (rlocs.get(top, "body"), type(s).__name__), "%s: result attribute %s returned as %r seen by the client as %r" % (name, show(path), s, g)))
         want_status = 200
-        resps = (method.get("http") or {}).get("responses") or []
-        if resps:
-            want_status = resps[0]["code"]
+        if chosen:
+            want_status = chosen["code"]
         elif method.get("result") is None:
             want_status = 204
         if w.get("status") != want_status:
